@@ -397,7 +397,7 @@ theorem poll_idle_eq (inj : BSt → Nat → BSt) (s : BSt) (h0 : (populate inj s
 
 theorem CInv_idleState {inj : BSt → Nat → BSt} (hi : InjOK CInv inj) (s : BSt) (hs : CInv s) :
     CInv (idleState inj s) :=
-  checkFailures_ok CInv_closed hi _ (CInv_closed.flushSinks _ (hi _ 5 (populate_ok CInv_closed hi s hs)).1)
+  checkFailures_ok CInv_closed.toClosedB hi _ (CInv_closed.flushSinks _ (hi _ 5 (populate_ok CInv_closed.toClosedB hi s hs)).1)
 
 theorem CInv_fresh (s : BSt) (h1 : s.ths = []) (h2 : s.registry = []) (h3 : s.cache = []) (h4 : s.newFlag = false)
     (h5 : s.invalidCnt = 0) (h6 : s.actors = []) : CInv s := by
